@@ -154,10 +154,11 @@ func (jit *JIterator) ensureChkIt(ctx context.Context) error {
 	var chk chunk.Chunk
 	var err error
 	var chkSt *chkStatus
+	var pos journal.Pos
 	if jit.bkwrd {
-		chk, chkSt, jit.pos, err = jit.cs.getPosBackward(ctx, jit.pos)
+		chk, chkSt, pos, err = jit.cs.getPosBackward(ctx, jit.pos)
 	} else {
-		chk, chkSt, jit.pos, err = jit.cs.getPosForward(ctx, jit.pos)
+		chk, chkSt, pos, err = jit.cs.getPosForward(ctx, jit.pos)
 	}
 
 	if err != nil {
@@ -165,8 +166,13 @@ func (jit *JIterator) ensureChkIt(ctx context.Context) error {
 	}
 
 	if chk == nil {
+		if !jit.bkwrd {
+			jit.pos = pos
+		}
+		// backward: stay before the first record, (first chunk, 0) is the position of a record
 		return io.EOF
 	}
+	jit.pos = pos
 
 	jit.ci, err = chk.Iterator()
 	if err != nil {
